@@ -1,4 +1,5 @@
 import TypstyleModel.Proofs.LcSafe
+import TypstyleModel.Model.Printer.Base
 /-! C04 — well-formed input never yields output with syntax errors (partial: printer side).
 Proved: layout soundness of the renderer (R1/R2) and soundness of the `lcSafe` certificate, which the
 check evaluates on the implementation's own document for every generated input: if it accepts, then at
@@ -19,3 +20,98 @@ theorem C04_flat_group_has_no_break (w pos : Nat) (d : Doc) (rest : List Cmd)
   (fitting_flat w pos [d] .flat rest rfl h).1
 
 end Pretty
+
+namespace Typstyle
+open Pretty
+
+theorem optParen_invert (d0 d1 : String) (l0 l1 : Nat) (B : Doc) (u : Nat) (m' : Mode) (ys : List Atom)
+    (hy : Lay m' (.append
+        (if u == 0 then .append (.flatAlt (.append (.text d0 l0 .soft) .hardline) .nil) B
+         else .nest u (.append (.flatAlt (.append (.text d0 l0 .soft) .hardline) .nil) B))
+        (.flatAlt (.append .hardline (.text d1 l1 .soft)) .nil)) ys) :
+    (m' = .flat ∧ ∃ bx, Lay .flat B bx ∧ ys = bx) ∨
+    (m' = .brk ∧ ∃ bx k1 k2, Lay .brk B bx ∧ ys = [.txt d0 .soft, .nl k1] ++ bx ++ [.nl k2, .txt d1 .soft]) := by
+  have hinner : ∀ zs, Lay m' (.append (.flatAlt (.append (.text d0 l0 .soft) .hardline) .nil) B) zs →
+      (m' = .flat ∧ ∃ bx, Lay .flat B bx ∧ zs = bx) ∨
+      (m' = .brk ∧ ∃ bx k1, Lay .brk B bx ∧ zs = [.txt d0 .soft, .nl k1] ++ bx) := by
+    intro zs hz
+    cases hz with
+    | append h1 h2 =>
+      cases h1 with
+      | flatAltB hh =>
+        cases hh with
+        | append ht hh2 =>
+          cases ht; cases hh2
+          exact Or.inr ⟨rfl, _, _, h2, rfl⟩
+      | flatAltF hh =>
+        cases hh
+        exact Or.inl ⟨rfl, _, h2, rfl⟩
+  cases hy with
+  | append hA hB =>
+    rename_i as bs
+    have hA' : (m' = .flat ∧ ∃ bx, Lay .flat B bx ∧ as = bx) ∨
+        (m' = .brk ∧ ∃ bx k1, Lay .brk B bx ∧ as = [.txt d0 .soft, .nl k1] ++ bx) := by
+      split at hA
+      · exact hinner _ hA
+      · cases hA with
+        | nest hh => exact hinner _ hh
+    rcases hA' with ⟨hm, bx, hbx, hab⟩ | ⟨hm, bx, k1, hbx, hab⟩
+    · subst hm
+      cases hB with
+      | flatAltF hh => cases hh; exact Or.inl ⟨rfl, bx, hbx, by simp [hab]⟩
+    · subst hm
+      cases hB with
+      | flatAltB hh =>
+        cases hh with
+        | append hh1 hh2 =>
+          cases hh1
+          cases hh2
+          rename_i k2
+          exact Or.inr ⟨rfl, bx, k1, k2, hbx, by rw [hab]; rfl⟩
+
+/-- T4.2 (`optional_paren`): the delimiters are printed exactly when the body is laid out broken.
+In every layout of `optional_paren body` (at every indent unit): either the group is flat — then the
+output is a flat layout of the body alone, which by R2 contains no hard line break, and no
+delimiter is printed — or it is broken — then the output is the opening delimiter, a line break, a
+layout of the body, a line break and the closing delimiter.  No layout has a delimiter on one side
+only, and none breaks the body without delimiters. -/
+theorem C04_optional_paren_layouts (e : Env) (body : Twin.Doc) (d0 d1 : String) (u : Nat) (m : Mode) (xs : List Atom)
+    (h0 : d0.isEmpty = false) (h1 : d1.isEmpty = false) (hb : body.fam u ≠ .nil)
+    (hl : Lay m ((optionalParen e body d0 d1).fam u) xs) :
+    (∃ bx, Lay .flat (body.fam u) bx ∧ xs = bx) ∨
+    (∃ bx k1 k2, Lay .brk (body.fam u) bx ∧
+        xs = [.txt d0 .soft, .nl k1] ++ bx ++ [.nl k2, .txt d1 .soft]) := by
+  obtain ⟨l0, hop⟩ : ∃ l0, (e.soft d0).fam u = .text d0 l0 .soft :=
+    ⟨if isAscii d0 then d0.utf8ByteSize else e.wd d0, by simp [Env.soft, mkText, h0]⟩
+  obtain ⟨l1, hcl⟩ : ∃ l1, (e.soft d1).fam u = .text d1 l1 .soft :=
+    ⟨if isAscii d1 then d1.utf8ByteSize else e.wd d1, by simp [Env.soft, mkText, h1]⟩
+  generalize hB : body.fam u = B at hb hl
+  have hshape : (optionalParen e body d0 d1).fam u =
+      .group (.append
+        (if u == 0 then .append (.flatAlt (.append (.text d0 l0 .soft) .hardline) .nil) B
+         else .nest u (.append (.flatAlt (.append (.text d0 l0 .soft) .hardline) .nil) B))
+        (.flatAlt (.append .hardline (.text d1 l1 .soft)) .nil)) := by
+    simp only [optionalParen, Twin.fam_grp, Twin.fam_app, Twin.fam_nstTab, Twin.fam_falt, Twin.fam_hardline, Twin.fam_nil]
+    rw [hop, hcl, hB]
+    have happ : (Doc.falt ((Doc.text d0 l0 Tag.soft : Doc) ++ Pretty.hardline) Doc.nil ++ B) =
+        Doc.append (Doc.flatAlt (Doc.append (Doc.text d0 l0 Tag.soft) Doc.hardline) Doc.nil) B := by
+      show Doc.app _ _ = _
+      cases B <;> simp_all [Doc.app, Doc.falt, Pretty.hardline, HAppend.hAppend, Append.append]
+    rw [happ]
+    by_cases hu : u = 0
+    · subst hu
+      simp [Doc.nst, Doc.grp, Doc.falt, Pretty.hardline, HAppend.hAppend, Append.append, Doc.app]
+    · have hu' : (u == 0) = false := by simpa using hu
+      simp [Doc.nst, hu', Doc.grp, Doc.falt, Pretty.hardline, HAppend.hAppend, Append.append, Doc.app]
+  rw [hshape] at hl
+  cases hl with
+  | groupSame hh =>
+    rcases optParen_invert d0 d1 l0 l1 B u _ _ hh with ⟨_, r⟩ | ⟨_, r⟩
+    · exact Or.inl r
+    · exact Or.inr r
+  | groupFlat hh =>
+    rcases optParen_invert d0 d1 l0 l1 B u _ _ hh with ⟨_, r⟩ | ⟨h, _⟩
+    · exact Or.inl r
+    · cases h
+
+end Typstyle
